@@ -341,7 +341,7 @@ where
                 let in_range = !(A::NAME.contains("32") && floatlike) || src.abs() < 3.0e38;
                 if (exact || floatlike) && in_range {
                     let tol = if A::NAME.contains("32") { 1e-6 * src.abs() } else { 0.0 };
-                    lx.check((y - src).abs() <= tol, "C04/conversion-round-trip", || format!("{}: {} reads back through to_f64 as {:e}", A::NAME, what, y));
+                    lx.within((y - src).abs(), tol, "C04/conversion-round-trip", || format!("{}: {} reads back through to_f64 as {:e}", A::NAME, what, y));
                 }
             }
         }
